@@ -2,6 +2,8 @@ package main
 
 import (
 	"fmt"
+	"hash/fnv"
+	"os"
 	"go/token"
 	"go/types"
 	"math/big"
@@ -65,7 +67,7 @@ func (x *Exec) explicitPanic(fr *Frame, st *State, what string) {
 		allowed = true
 	}
 	if !allowed {
-		x.oblige(fr, st, "safety", "explicit-"+what, x.sweepTags, x.tt.False(), "explicit panic must be unreachable")
+		x.oblige(fr, st, "safety", "explicit-"+what+"|"+x.lineAnchor(x.curPos), x.sweepTags, x.tt.False(), "explicit panic must be unreachable")
 	}
 	ps := st.clone()
 	fr.panics = append(fr.panics, ps)
@@ -78,7 +80,44 @@ func (x *Exec) safety(fr *Frame, st *State, detail string, goal *Term, text stri
 	if x.inSpec > 0 {
 		return
 	}
-	x.oblige(fr, st, "safety", detail, x.sweepTags, goal, text)
+	// anchor the obligation name to the content of the source line (stable under unrelated edits)
+	x.oblige(fr, st, "safety", detail+"|"+x.lineAnchor(x.curPos), x.sweepTags, goal, text)
+}
+
+// lineAnchor: a short readable digest of the source line at pos.
+func (x *Exec) lineAnchor(pos token.Pos) string {
+	if !pos.IsValid() {
+		return "?"
+	}
+	ps := x.prog.Fset.Position(pos)
+	lines, ok := x.prog.srcLines[ps.Filename]
+	if !ok {
+		data, err := os.ReadFile(ps.Filename)
+		if err == nil {
+			lines = strings.Split(string(data), "\n")
+		}
+		x.prog.srcLines[ps.Filename] = lines
+	}
+	if ps.Line-1 >= len(lines) || ps.Line < 1 {
+		return "?"
+	}
+	t := strings.TrimSpace(lines[ps.Line-1])
+	var sb strings.Builder
+	for _, c := range t {
+		if c == ' ' || c == '\t' {
+			continue
+		}
+		if c == '(' || c == ')' || c == '#' || c == '/' {
+			c = '_'
+		}
+		sb.WriteRune(c)
+		if sb.Len() >= 40 {
+			break
+		}
+	}
+	h := fnv.New32a()
+	h.Write([]byte(t))
+	return fmt.Sprintf("%s~%04x", sb.String(), h.Sum32()&0xffff)
 }
 
 func (x *Exec) nonNil(fr *Frame, st *State, p *Term, what string) {
